@@ -5,8 +5,8 @@ from harness.core import cbool, clist, cnat, copt, cq
 
 ID = "C06"
 MODEL_TARGETS = ["C06/Cases.vo"]
-PROOF_TARGETS = ["C06/Gen.vo", "C06/GenWrap.vo", "C06/Bridge.vo", "C06/Proofs.vo",
-                 "C06/Refuted.vo"]
+PROOF_TARGETS = ["C06/Gen.vo", "C06/WrapSem.vo", "C06/GenWrap.vo", "C06/Bridge.vo",
+                 "C06/Proofs.vo", "C06/Refuted.vo"]
 OBLIGATION_FILES = ["C06/Bridge.v", "C06/Refuted.v"]
 PROPS_FILE = "C06/Props.v"
 SHARD = 120
@@ -242,11 +242,7 @@ def _func_case(rng, metric, force=None):
         c["scale"] = rng.choice([0.5, 3.0, 10.0, 2.0 ** -30, 1e-3])
     if omit:
         c["omit_opts"] = True
-    c["tag"] = "gmean-horizon-weight" if (sh in GM and hw is not None and n > 1) else "plain"
     c["agg"] = STRUCT[sh][3] or "inner"
-    # the equal-weights law is probed on every case except geometric means (known finding: there
-    # it fails on every input with horizon >= 2, a sample is enough)
-    c["probe_equal_hw"] = hw is None and (sh not in GM or rng.random() < 0.2)
     return c
 
 
@@ -256,10 +252,7 @@ def gen_cases(rng, tier):
     for metric in METRICS:
         sh = _short(metric)
         for _ in range(per):
-            force = {}
-            if sh in GM:
-                force["hw"] = rng.random() < 0.12   # weighted geometric means are a known finding
-            cases.append(_func_case(rng, metric, force))
+            cases.append(_func_case(rng, metric))
     # every class: all constructor options x a few data sets
     import itertools
     for metric, (sh, cls, names, extra) in METRICS.items():
@@ -285,7 +278,7 @@ def gen_cases(rng, tier):
                 c = {"kind": "class", "metric": metric, "cls": cls, "opts": o,
                      "needs": extra or "none", "proto": "call", "mo": "uniform_average",
                      "hw": None, "univariate": univ, "container": "numpy", "y_true": yt,
-                     "y_pred": yp, "tag": "plain"}
+                     "y_pred": yp}
                 if yb is not None:
                     c["y_bench"] = yb
                 if ytr is not None:
@@ -303,8 +296,7 @@ def gen_cases(rng, tier):
             yt, yp, yb, ytr = _data(rng, metric, n, 2, 1)
             c = {"kind": "class", "metric": metric, "cls": cls, "opts": o, "omit_ctor": True,
                  "needs": extra or "none", "proto": "call", "mo": "uniform_average", "hw": None,
-                 "univariate": False, "container": "numpy", "y_true": yt, "y_pred": yp,
-                 "tag": "plain"}
+                 "univariate": False, "container": "numpy", "y_true": yt, "y_pred": yp}
             if yb is not None:
                 c["y_bench"] = yb
             if ytr is not None:
@@ -436,7 +428,7 @@ def run_impl(case):
         laws["percol"] = per
     if hw is not None:
         laws["hw_x4"] = _try(f, yt, yp, horizon_weight=[4.0 * w for w in hw], multioutput=mo, **kw)
-    elif case.get("probe_equal_hw", True):
+    else:
         laws["hw_equal"] = _try(f, yt, yp, horizon_weight=[2.0] * len(case["y_true"][0]),
                                 multioutput=mo, **kw)
     if sh == "MAsym" and case["opts"]["left_error_function"] == case["opts"]["right_error_function"]:
@@ -761,7 +753,6 @@ def shrink(case):
                 d["hw"] = case["hw"][:i] + case["hw"][i + 1:]
                 if sum(d["hw"]) == 0:
                     continue
-            d["tag"] = "gmean-horizon-weight" if (case["tag"] != "plain" and n - 1 > 1) else "plain"
             yield d
     if k > 1:
         for j in range(k):
@@ -778,7 +769,7 @@ def shrink(case):
             d = dict(case)
             d["y_train"] = [c[:-1] for c in case["y_train"]]
             yield d
-    if case.get("hw") is not None and case["tag"] == "plain":
+    if case.get("hw") is not None:
         d = dict(case)
         d["hw"] = None
         yield d
